@@ -61,8 +61,17 @@ func runC06EngineEvents(sum *Summary) error {
 				ev.LogDBCompacted(raftio.EntryInfo{ShardID: shard, ReplicaID: 1, Index: 10})
 			}
 		}
-		time.Sleep(150 * time.Millisecond) // the dispatcher drains its one-slot channel
-		es, qerr := cached.QueryRaftLog(ctx, shard, dragonboat.LogRange{FirstIndex: 5, LastIndex: 21}, 1<<20)
+		// the dispatcher drains its one-slot channel; a query that is still answered from the cache changes nothing, so
+		// asking again until the invalidation has been processed (or 5 s have passed) is safe
+		var es []raftpb.Entry
+		var qerr error
+		for deadline := time.Now().Add(5 * time.Second); ; {
+			es, qerr = cached.QueryRaftLog(ctx, shard, dragonboat.LogRange{FirstIndex: 5, LastIndex: 21}, 1<<20)
+			if errors.Is(qerr, serrors.ErrLogAhead) || time.Now().After(deadline) {
+				break
+			}
+			time.Sleep(50 * time.Millisecond)
+		}
 		sum.Evaluations++
 		sum.hist("queries").Inc("compacted index after compaction events through the engine")
 		if !errors.Is(qerr, serrors.ErrLogAhead) {
